@@ -9,6 +9,8 @@ import (
 	"sort"
 	"strconv"
 	"strings"
+	"sync"
+	"time"
 
 	"github.com/PapaCharlie/go-restli/v2/d2"
 	"verif/harness/hx"
@@ -40,8 +42,58 @@ func (e entry) scheme() string {
 	return u.Scheme
 }
 
+// memo tables (the harness is single-threaded apart from the goroutine waiting for the driver)
+var (
+	memoMu        sync.RWMutex
+	entrySexpMemo = map[entry]string{}
+	hostHexMemo   = map[url.URL]string{}
+	hexMemo       = map[string]string{}
+)
+
+func hexOf(s string) string {
+	memoMu.RLock()
+	h, ok := hexMemo[s]
+	memoMu.RUnlock()
+	if ok {
+		return h
+	}
+	h = hx.Hex([]byte(s))
+	memoMu.Lock()
+	hexMemo[s] = h
+	memoMu.Unlock()
+	return h
+}
+
 func (e entry) sexp() string {
-	return "(" + hx.Hex([]byte(e.scheme())) + " " + hx.Hex([]byte(e.url)) + " " + strconv.Itoa(e.w4) + ")"
+	memoMu.RLock()
+	s, ok := entrySexpMemo[e]
+	memoMu.RUnlock()
+	if ok {
+		return s
+	}
+	s = "(" + hx.Hex([]byte(e.scheme())) + " " + hx.Hex([]byte(e.url)) + " " + strconv.Itoa(e.w4) + ")"
+	memoMu.Lock()
+	entrySexpMemo[e] = s
+	memoMu.Unlock()
+	return s
+}
+
+// hostHex renders a url.URL map key as "<scheme-hex> <url-hex>"
+func hostHex(h url.URL) string {
+	if h.User != nil {
+		return hx.Hex([]byte(h.Scheme)) + " " + hx.Hex([]byte(h.String()))
+	}
+	memoMu.RLock()
+	s, ok := hostHexMemo[h]
+	memoMu.RUnlock()
+	if ok {
+		return s
+	}
+	s = hx.Hex([]byte(h.Scheme)) + " " + hx.Hex([]byte(h.String()))
+	memoMu.Lock()
+	hostHexMemo[h] = s
+	memoMu.Unlock()
+	return s
 }
 
 func weightText(w4 int) string { return strconv.FormatFloat(float64(w4)/4, 'g', -1, 64) }
@@ -175,10 +227,10 @@ func canonContents(c map[string]map[url.URL]float64) string {
 	for k, m := range c {
 		es := make([]string, 0, len(m))
 		for h, w := range m {
-			es = append(es, "("+hx.Hex([]byte(h.Scheme))+" "+hx.Hex([]byte(h.String()))+" "+w4Of(w)+")")
+			es = append(es, "("+hostHex(h)+" "+w4Of(w)+")")
 		}
 		sort.Strings(es)
-		nodes = append(nodes, "("+strings.Join(append([]string{hx.Hex([]byte(k))}, es...), " ")+")")
+		nodes = append(nodes, "("+strings.Join(append([]string{hexOf(k)}, es...), " ")+")")
 	}
 	sort.Strings(nodes)
 	return "(" + strings.Join(nodes, " ") + ")"
@@ -192,7 +244,7 @@ func canonRef(c map[string][]entry) string {
 			es = append(es, a.sexp())
 		}
 		sort.Strings(es)
-		nodes = append(nodes, "("+strings.Join(append([]string{hx.Hex([]byte(k))}, es...), " ")+")")
+		nodes = append(nodes, "("+strings.Join(append([]string{hexOf(k)}, es...), " ")+")")
 	}
 	sort.Strings(nodes)
 	return "(" + strings.Join(nodes, " ") + ")"
@@ -243,17 +295,21 @@ func equalLive(rec map[string]map[url.URL]float64, live map[string]*d2.Uri) bool
 
 func Run(cfg Config) *hx.Result {
 	r := hx.NewResult("C19", cfg.Module, cfg.Seed, cfg.Tier)
-	r.Rule = "histories: fixed corpus of the named situations, then ALL histories up to length 4 (quick) / 6 (thorough) over 3 nodes x {add, update, delete, malformed, weight-less} fed as real TreeCacheEvents with real JSON payloads to handleUriUpdate (every earlier snapshot re-inspected after every later event), then seeded longer histories with root/nested/foreign paths through waitForUriUpdates; non-trivial = at least one effective write and one ignored or deleting event. selection: announcement sets (hosts x schemes x weights incl. 0, duplicates across nodes) x priority lists x forced draws r=p/64 through the RNG hook, every result checked against the model under every iteration order; non-trivial = two or more eligible entries. frequencies: seeded real PRNG, 6-sigma binomial bound (D only, statistical)"
+	r.Rule = "histories: fixed corpus of the named situations, then ALL histories up to length 4 (quick) / 6 (thorough) over 3 nodes x {add, update, delete, malformed, weight-less} fed as real TreeCacheEvents with real JSON payloads to handleUriUpdate (every earlier snapshot re-inspected after every later event), then seeded longer histories with root/nested/foreign paths through waitForUriUpdates; non-trivial = at least one effective write and one ignored or deleting event. selection: announcement sets (hosts x schemes x weights incl. 0, duplicates across nodes) x priority lists x forced draws r=p/64 through the RNG hook, every result checked against the model under every iteration order; non-trivial = two or more eligible entries. float-edge probe: inexact weights at the largest draw (D only, outside the model). frequencies: seeded real PRNG, 6-sigma binomial bound (D only, statistical)"
 	if len(cfg.Replay) > 0 {
 		for _, line := range cfg.Replay {
 			replay(cfg, r, line)
 		}
 		return r
 	}
-	runFold(cfg, r)
-	runChoose(cfg, r)
-	runStats(cfg, r)
-	runAPI(cfg, r)
+	for _, ph := range []struct {
+		name string
+		f    func(Config, *hx.Result)
+	}{{"fold", runFold}, {"choose", runChoose}, {"float-edge", runFloatEdge}, {"stats", runStats}, {"api", runAPI}} {
+		t0 := time.Now()
+		ph.f(cfg, r)
+		r.Dist["wall-ms:"+ph.name] = int(time.Since(t0).Milliseconds()) // informational only
+	}
 	r.Exhaustive = false
 	return r
 }
@@ -293,6 +349,16 @@ func replay(cfg Config, r *hx.Result, line string) {
 		p, _ := strconv.Atoi(xs[3].Atom)
 		q, _ := strconv.Atoi(xs[4].Atom)
 		chooseCase(cfg, r, st, prio, p, q, 64)
+	case "d2choosef":
+		if len(xs) != 3 {
+			panic("c19: cannot replay " + line)
+		}
+		var ws []string
+		for _, w := range xs[1].List {
+			ws = append(ws, w.Atom)
+		}
+		v, _ := strconv.ParseInt(xs[2].Atom, 10, 64)
+		floatEdgeCase(r, ws, v, 3000)
 	default:
 		panic("c19: cannot replay " + line)
 	}
